@@ -398,8 +398,11 @@ def _h2_request_headers(idx: int, target_size: Optional[int] = None) -> List[Tup
     return RH.padded_headers(base, target_size) or base
 
 
-async def _drive_h2(cfg: dict, batches: List[List[List[Tuple[bytes, bytes]]]]) -> dict:
-    """the real H2Protocol, one `handle(RawData)` per batch of HEADERS frames from a client that ignores the server"""
+async def _drive_h2(cfg: dict, batches: List[List[List[Tuple[bytes, bytes]]]], h2c: bool = False, answer: bool = False) -> dict:
+    """the real H2Protocol, one `handle(RawData)` per batch of HEADERS frames from a client that ignores the server;
+    `h2c`: the connection is opened by `initiate(headers, settings)` (the HTTP/1.1 request of an `Upgrade: h2c` connection is
+    served on stream 1); `answer`: after every read the applications of the streams it started send their response head and
+    a first body chunk - `answered` lists the streams whose head reached the client"""
     import h2.connection
     import h2.events
     from hypercorn.asyncio.worker_context import WorkerContext
@@ -411,6 +414,7 @@ async def _drive_h2(cfg: dict, batches: List[List[List[Tuple[bytes, bytes]]]]) -
     for k, v in cfg.items():
         setattr(config, k, v)
     spawned: List[int] = []
+    app_sends: Dict[int, Any] = {}
     out = bytearray()
     closed = [False]
     taps: List[Any] = []
@@ -418,6 +422,7 @@ async def _drive_h2(cfg: dict, batches: List[List[List[Tuple[bytes, bytes]]]]) -
     class TG:
         async def spawn_app(self, app, config_, scope, send):
             spawned.append(send.__self__.stream_id)
+            app_sends[send.__self__.stream_id] = send
 
             async def app_put(message):
                 pass
@@ -455,13 +460,33 @@ async def _drive_h2(cfg: dict, batches: List[List[List[Tuple[bytes, bytes]]]]) -
     obs: List[dict] = []
     try:
         proto = H2Protocol(object(), config, WorkerContext(None), TG(), ConnectionState({}), False, ("127.0.0.1", 1), ("10.0.0.1", 80), send)
-        await proto.initiate()
-        cl = RH.RogueH2()
+        cl = RH.RogueH2(upgrade=h2c)
+        if h2c:
+            await proto.initiate([(b":method", b"GET"), (b":scheme", b"http"), (b":authority", b"x"), (b":path", b"/up"), (b"host", b"x")], "")
+        else:
+            await proto.initiate()
         await proto.handle(RawData(cl.out()))
         cl.feed(bytes(out))
         del out[:]
         settings = dict(cl.settings)
         ops = []
+        answered_by: set = set()
+
+        async def answer_new() -> None:
+            for sid_ in list(spawned):
+                if sid_ in answered_by:
+                    continue
+                answered_by.add(sid_)
+                try:
+                    await app_sends[sid_]({"type": "http.response.start", "status": 200, "headers": []})
+                    await app_sends[sid_]({"type": "http.response.body", "body": b"ok", "more_body": True})
+                except Exception:  # noqa - judged by what reaches the client
+                    pass
+        pre = {"served": list(spawned), "goaways": [], "up_closed": closed[0], "kar": proto.keep_alive_requests}
+        if answer and h2c:
+            await answer_new()
+            cl.feed(bytes(out))
+            del out[:]
         for batch in batches:
             if closed[0]:
                 break
@@ -477,12 +502,16 @@ async def _drive_h2(cfg: dict, batches: List[List[List[Tuple[bytes, bytes]]]]) -
                 exc = type(e).__name__
             for _ in range(4):
                 await asyncio.sleep(0)
+            if answer:
+                await answer_new()
             cl.feed(bytes(out))
             del out[:]
             ops.append({"op": "read", "frames": frames})
             obs.append({"served": list(spawned), "goaways": [[g["last"], g["code"]] for g in cl.goaways], "up_closed": closed[0],
-                        "kar": proto.keep_alive_requests, "taps": list(taps), "handler_exception": exc})
-        return {"ops": ops, "obs": obs, "settings": {str(k): v for k, v in settings.items()}, "parse_error": cl.parse_error}
+                        "kar": proto.keep_alive_requests, "taps": list(taps), "handler_exception": exc,
+                        "answered": sorted(s_ for s_ in answered_by if cl.streams.get(s_, {}).get("status") == 200)})
+        return {"ops": ops, "obs": obs, "settings": {str(k): v for k, v in settings.items()}, "parse_error": cl.parse_error, "pre": pre,
+                "answered_by": sorted(answered_by)}
     finally:
         H.receive_data, H.close_connection = o_recv, o_close
 
@@ -515,6 +544,10 @@ def _judge_h2(ctx: Ctx, case: dict, cfgm: dict, per_read: List[dict], batches, s
     sid = 1
     sizes: Dict[int, int] = {}
     read_of: Dict[int, int] = {}
+    if case.get("h2c"):
+        # the HTTP/1.1 request of the upgrade is request number one, served on stream 1 before the first HTTP/2 read
+        sizes[1], read_of[1], sid = 0, -1, 3
+        sig = {**sig, "opening": "h2c", "limit": cfgm["keep_alive_max"]}
     for i, batch in enumerate(batches):
         for hs in batch:
             sizes[sid] = RH.header_list_size(hs)
@@ -550,6 +583,17 @@ def _judge_h2(ctx: Ctx, case: dict, cfgm: dict, per_read: List[dict], batches, s
             ctx.violation("served_after_goaway", case, {"first_goaway_read": first_goaway_read, "served_later": later}, sig)
 
 
+def _judge_answers(ctx: Ctx, case: dict, cfgm: dict, served: List[int], answered: List[int], sig: dict) -> None:
+    """every served request's response must be handed to the client (its application sent one); `when` tells a loss on a
+    connection whose request maximum has been tripped (close_connection() has run: the request at the maximum and every
+    stream still unanswered at that moment, known finding F48) from a loss on a connection below its maximum"""
+    L = cfgm["keep_alive_max"]
+    for idx, s_ in enumerate(served):
+        if s_ not in answered:
+            ctx.violation("response_of_served_request_lost", case, {"sid": s_, "request_number": idx + 1, "L": L, "served": served, "answered": answered},
+                          {**sig, "proto": "2", "when": "request_max_tripped" if len(served) >= L + 1 else "below_request_max"})
+
+
 def gen_h2(ctx: Ctx) -> List[dict]:
     rng = ctx.rng
     cases: List[dict] = []
@@ -561,6 +605,12 @@ def gen_h2(ctx: Ctx) -> List[dict]:
         cases.append({"family": "ka2", "cfg": {"keep_alive_max_requests": L}, "batches": [L + 3]})
         cases.append({"family": "ka2", "cfg": {"keep_alive_max_requests": L}, "batches": [max(1, L), 3, 1]})
     cases.append({"family": "ka2", "cfg": {"keep_alive_max_requests": dka}, "batches": [1, 2, 1]})
+    # the same limit on a connection opened by `Upgrade: h2c` (the upgrade request is request number one), and sessions whose
+    # applications answer: is the response of every served request handed to the client?
+    for L in [0, 1, 2, 3]:
+        cases.append({"family": "ka2", "cfg": {"keep_alive_max_requests": L}, "batches": [1] * (L + 2), "h2c": True, "answer": True})
+        cases.append({"family": "ka2", "cfg": {"keep_alive_max_requests": L}, "batches": [1] * (L + 2), "answer": True})
+    cases.append({"family": "ka2", "cfg": {"keep_alive_max_requests": 2}, "batches": [2, 2], "h2c": True, "answer": True})
     for _ in range(ctx.budget(10, 300)):
         L = rng.choice([0, 1, 2, 3, 4, 6])
         cases.append({"family": "ka2", "cfg": {"keep_alive_max_requests": L}, "batches": [rng.choice([1, 1, 1, 2, 3]) for _ in range(rng.randint(1, L + 3))]})
@@ -587,7 +637,7 @@ def check_h2_direct(ctx: Ctx, cases: List[dict]) -> None:
     model_reqs = []
     for case in cases:
         batches = _h2_batches(case)
-        res = asyncio.run(_drive_h2(case["cfg"], batches))
+        res = asyncio.run(_drive_h2(case["cfg"], batches, h2c=bool(case.get("h2c")), answer=bool(case.get("answer"))))
         ctx.evaluations += 1
         ctx.traces_validated += 1
         cfgm = _h2_model_cfg(case["cfg"])
@@ -603,7 +653,10 @@ def check_h2_direct(ctx: Ctx, cases: List[dict]) -> None:
         ctx.distinct([case["family"], "direct", case["cfg"], [len(b) for b in batches], [RH.header_list_size(h) for b in batches for h in b][:3]])
         ctx.sample({"family": case["family"], "cfg": case["cfg"], "batches": [len(b) for b in batches]}, cap=4)
         _judge_h2(ctx, c2, cfgm, res["obs"], batches, res["settings"], sig)
-        model_reqs.append(({"cmd": "c18.h2", "cfg": cfgm, "ops": res["ops"]}, c2, res))
+        ctx.count("h2.opening", "h2c" if case.get("h2c") else "h2")
+        if case.get("answer") and res["obs"]:
+            _judge_answers(ctx, c2, cfgm, res["obs"][-1]["served"], res["obs"][-1]["answered"], sig)
+        model_reqs.append(({"cmd": "c18.h2", "cfg": cfgm, "ops": res["ops"], "h2c": bool(case.get("h2c"))}, c2, res))
     out = ctx.model([m for m, _, _ in model_reqs])
     if out is None:
         return
@@ -622,10 +675,20 @@ def check_h2_direct(ctx: Ctx, cases: List[dict]) -> None:
             if impl != mod:
                 ctx.disagree("c18.h2", {**c2, "read": i}, mod, {**impl, "taps": o["taps"]})
                 break
+            if c2.get("answer"):
+                # every application answered right after the read that started it: the heads that reached the client so far are the
+                # streams the model says could be answered in the state after the read that served them
+                can = set(ms.get("deliverable", []))
+                new = [x for x in ms["served"] if x not in (mo["states"][i - 1]["served"] if i else (res["pre"]["served"]))]
+                for x in new:
+                    if (x in o["answered"]) != (x in can):
+                        ctx.disagree("c18.h2.deliverable", {**c2, "read": i}, {"sid": x, "deliverable": x in can}, {"sid": x, "answered": x in o["answered"]})
 
 
 def check_h2_e2e(ctx: Ctx, cases: List[dict]) -> None:
     for case in cases:
+        if case.get("h2c"):
+            continue                   # the h2c opening is driven directly (and end to end by the recycle family / C13)
         batches = _h2_batches(case)
         cfgm = _h2_model_cfg(case["cfg"])
         hold = case["family"] == "h2lim" and "h2_max_concurrent_streams" in case["cfg"]
@@ -674,6 +737,10 @@ def check_h2_e2e(ctx: Ctx, cases: List[dict]) -> None:
             if case["family"] == "ka2" and len(served_all) >= L + 1:
                 st = cr["summary"]["streams"].get(str(served_all[L]))
                 ctx.count("h2.response_of_request_at_max", "delivered" if st and st["ended"] else ("reset" if st and st["reset"] is not None else "lost"))
+            if case["family"] == "ka2" and not hold:
+                # every application sends a complete response: it must reach the client (known finding F48 for the request at the maximum)
+                done = [s_ for s_ in served_all if (cr["summary"]["streams"].get(str(s_)) or {}).get("ended")]
+                _judge_answers(ctx, c2, cfgm, served_all, done, sig)
 
 
 # ==============================================================================================================
